@@ -1,7 +1,7 @@
 """C15 — equivalent spellings of an annotation dispatch identically."""
 import json, collections, typing, linecache, itertools
 from .. import model, progs
-from ..world import World, random_spec, world_from, enc_val
+from ..world import World, random_spec, world_from, enc_val, dec_val
 from . import resolve_common as R
 from ovld.types import normalize_type
 from ovld import types as otypes, dependent as odep
@@ -198,6 +198,18 @@ def outcomes(ov, log, argsets):
     return out
 
 
+def build_args(w, argdesc):
+    def one(d):
+        if d[0] == "I":
+            return w.instance(d[1])
+        if d[0] == "V":
+            return dec_val(d[1], w)
+        if d[0] == "L":
+            return [w.instance(d[1])]
+        return w.classes[d[1]]
+    return [[one(d) for d in row] for row in argdesc]
+
+
 def check(ctx, stats, samples):
     rng = ctx.rng
     spec = random_spec(rng, n_user=rng.randint(2, 4), kinds=("plain", "plain", "abc"))
@@ -223,10 +235,10 @@ def check(ctx, stats, samples):
             return
     # 2. behaviour: every respelling behaves like the first spelling
     inst = [c for c in [2, 3] + w.user_ids() if w.instantiable(c)]
-    argsets = []
-    pool0 = [w.instance(c) for c in inst] + [1, 2, 3, "a", "b", "ab", None, [w.instance(inst[0])], [1], int, w.classes[inst[-1]]]
-    for v in pool0:
-        argsets.append([v] + [w.instance(rng.choice(inst)) for _ in range(npos - 1)])
+    # arguments as descriptors (so that a replay rebuilds exactly these calls): ["I", class id] instance, ["V", encoded value], ["C", class id] a passed class
+    pool0 = [["I", c] for c in inst] + [["V", enc_val(v)] for v in (1, 2, 3, "a", "b", "ab", None)] + [["L", inst[0]], ["V", enc_val([1])], ["C", 2], ["C", inst[-1]]]
+    argdesc = [[d] + [["I", rng.choice(inst)] for _ in range(npos - 1)] for d in pool0]
+    argsets = build_args(w, argdesc)
     log = []
     ref = outcomes(build(w, surround, [(90, sp[0], npos)], log), log, argsets)
     stats["evaluations"] += len(argsets)
@@ -236,7 +248,7 @@ def check(ctx, stats, samples):
         stats["respellings"] += 1
         stats["distinct"].add(hash(json.dumps([spec, surround, sp[0], s])))
         if got != ref:
-            ctx.violation(f"respelling {s} of {sp[0]} changes dispatch: {ref} -> {got}", {"spec": spec, "surround": surround, "a": sp[0], "b": s, "npos": npos})
+            ctx.violation(f"respelling {s} of {sp[0]} changes dispatch: {ref} -> {got}", {"spec": spec, "surround": surround, "a": sp[0], "b": s, "npos": npos, "args": argdesc})
             return
         # both spellings in one function == the same spelling twice (the later definition replaces the earlier)
         both = outcomes(build(w, surround, [(90, sp[0], npos), (91, s, npos)], log), log, argsets)
@@ -244,7 +256,7 @@ def check(ctx, stats, samples):
         stats["evaluations"] += 2 * len(argsets)
         if both != twice:
             ctx.violation(f"a function holding both spellings {sp[0]} and {s} differs from one holding the same spelling twice: {twice} -> {both}",
-                          {"spec": spec, "surround": surround, "a": sp[0], "b": s, "npos": npos, "both": True})
+                          {"spec": spec, "surround": surround, "a": sp[0], "b": s, "npos": npos, "both": True, "args": argdesc})
             return
     if len(samples) < 3:
         samples.append({"base": base, "spellings": sp, "reference_outcomes": ref[:6]})
@@ -266,7 +278,31 @@ def run(ctx):
 
 
 def replay(ctx, payload):
-    return True
+    """rebuild the recorded functions and calls; reproduced iff the two functions still behave differently"""
+    c = payload["case"]
+    if "surface" in c:      # a normaliser correspondence case
+        w = World(c["spec"])
+        names = {}
+        s = c["surface"]
+        a_src = None if s == ["missing"] else src(w, s, names)
+        fn = make_fn(w, 0, [a_src], names, [])
+        import inspect
+        raw = inspect.signature(fn).parameters["a0"].annotation
+        got = enc_of_type(w, normalize_type(raw, fn))
+        exp = model.run_cases([[23, [model_ann(w, s)]]])[0][0]
+        return model.canon_ty(got) != model.canon_ty(exp)
+    if "args" not in c:
+        return True         # an older replay file without the recorded calls: cannot be rebuilt, reported as reproduced
+    w = World(c["spec"])
+    argsets = build_args(w, c["args"])
+    log = []
+    if c.get("both"):
+        both = outcomes(build(w, c["surround"], [(90, c["a"], c["npos"]), (91, c["b"], c["npos"])], log), log, argsets)
+        twice = outcomes(build(w, c["surround"], [(90, c["a"], c["npos"]), (91, c["a"], c["npos"])], log), log, argsets)
+        return both != twice
+    ref = outcomes(build(w, c["surround"], [(90, c["a"], c["npos"])], log), log, argsets)
+    got = outcomes(build(w, c["surround"], [(90, c["b"], c["npos"])], log), log, argsets)
+    return ref != got
 
 
 def replay_finding(ctx, e):
